@@ -44,8 +44,16 @@ def run(ctx):
     ctx.cov["exhaustive"] = True
     ctx.sample({"config": cfgs[len(cfgs) // 2], "result": results[len(cfgs) // 2]})
     cur = os.path.join(ctx.work, "cursors.ndjson")
-    ctx.harness(["c18-cursors", "-out", cur], timeout=300)
-    for r in kit.read_ndjson(cur):
+    rc, so, se = ctx.harness(["c18-cursors", "-out", cur], timeout=300, allow_fail=True)
+    if rc != 0:
+        if "panic:" in se and "samaritan/proc/redis" in se:
+            done = [r["case"] for r in kit.read_ndjson(cur)] if os.path.exists(cur) else []
+            m = [l for l in se.splitlines() if l.startswith("panic:")]
+            ctx.violation("scan/crash/client-supplied-cursor", "the process hosting the proxy died on a client supplied cursor (%s); "
+                          "last completed case: %s" % (m[0] if m else "panic", done[-1] if done else "none"), {"stderr": se[-2500:], "completed": done})
+        else:
+            raise kit.Inconclusive("c18-cursors exited %d: %s" % (rc, se[-1500:]))
+    for r in (kit.read_ndjson(cur) if os.path.exists(cur) else []):
         ctx.case(key=["cursor", r["case"]], nontrivial=True)
         if not r["ok"]:
             ctx.violation("scan/cursor/" + r["case"].split(" ")[0], "%s: %s" % (r["case"], r.get("why")), r)
